@@ -123,7 +123,7 @@ def explore(make_world: Callable[[], tuple], judge: Callable[[object, 'Run'], No
                     exc.__cause__ = None
             run.bodies = []
             bodies = None
-            gc.collect()
+            gc.collect(0)
             cleanup(world)
         stats['schedules'] += 1
         stats['max_points'] = max(stats['max_points'], len(run.choices))
